@@ -97,6 +97,8 @@ def run(ctx):
             c["retention"] = 0
     directed = directed_cases()
     cases = directed + cliprops.gen_cases(ctx, n, copts, sopts, tweak=tweak)
+    for i, c in enumerate(cases):
+        c["subsecond"] = i % 2 == 1       # half of the histories with bus timestamps off the whole second
     res = cliprops.srvprops.run_cases(ctx, cases, modname="clicase")
     errs = [(i, e) for i, (o, g, e) in enumerate(res) if e]
     if errs:
